@@ -111,6 +111,24 @@ CHECKS = {
 
 NOT_YET = {}
 
+# additions made after the seeded-change rounds (appended to the level text of the check)
+ADDENDA = {
+ "C01": " Also: modules carry long stale <file>.go.tmp left-overs; in half of them every generated file is edited in place (same length, still valid Go) and generated again - it must come back byte-identical; own-module imports next to std imports (module paths without a dot).",
+ "C03": " The path pool includes third-party paths that end in a std package's full path and look-alike struct pairs (typgen.TwinStruct) plus defined pointer/slice/array/channel types.",
+ "C04": " The observing generator also renders what Decl(pos), LocateInPackage, Context.Package and SourceDir answer; packages hold case-twin type names (T7/t7), same-name dependency packages and are regenerated incrementally vs. in full.",
+ "C05": " Also: an analysing generator renders ResultsOf for every function of the package and of its module-local imports (diamond and mutually recursive call chains across packages), and a go.work workspace scenario runs packages of 2-3 modules with different go directives / dot-less module paths alone vs. together.",
+ "C07": " Layouts include packages without any type, alias-only packages, nested and look-alike sibling modules, dotted base names and stale temp files.",
+ "C09": " Every snippet is rendered twice through the same writer; the second rendering must append the same bytes.",
+ "C10": " Half of the strings are compositions of fragments (all line ends, both quote characters, NUL, BOM, U+2028/9, invalid UTF-8, comment and template metacharacters).",
+ "C11": " Expressions include look-alike struct pairs that differ in exactly one place (possibly behind a pointer) and defined types of every underlying kind.",
+ "C12": " Three passes: layout order, reverse order, and through a running generator (Context.Doc, then Package.Doc/Comment, then Context.Doc again for every type and field); a third of the documented declarations are named after the first word of their doc.",
+ "C13": " The synthetic modules require three replaced modules (sibling directory, nested module, short path with a long replacement directory); accessor panics are attributed.",
+ "C14": " The first answer is snapshotted before any later call (a shared, later-mutated slice cannot hide a difference) and must still print the same afterwards; cross-package queries q.ResultsOf(p.F) included.",
+ "C16": " Fields built from earlier same-package types (value, pointer, slice, map value; generic instantiations) and own fields that shadow promoted ones are generated.",
+ "C19": " Also: first-use cases (a stand-alone -race binary linking only camelcase + inflector whose very first calls are made by 16-96 goroutines leaving a barrier), many-distinct order independence (200 000 / 1 000 000 distinct inputs forwards in one fresh process, backwards in another), held Split results re-checked after later calls.",
+ "C20": " Also: first-use cases (stand-alone -race binary, first calls concurrent) and many-distinct order independence (200 000 / 1 000 000 distinct inputs through one process forwards and another backwards - enough for birthday collisions in any 32-bit key space).",
+}
+
 def main():
     props = [json.loads(l) for l in open(os.path.join(ROOT, "properties.jsonl"))]
     hooks_commits = []
@@ -128,6 +146,7 @@ def main():
         pid = p["id"]
         if pid in CHECKS:
             cat, tech, text, note, ref = CHECKS[pid]
+            text += ADDENDA.get(pid, "")
             checks.append({
                 "property_id": pid,
                 "quick_cmd": f"./check {pid} quick",
